@@ -9,7 +9,7 @@ from decaylanguage import DaughtersDict, DecayChain, DecayMode
 from particle import ParticleNotFound
 
 from mc import decobs, shapes
-from mc.core import pmap, short_hash
+from mc.core import pmap, short_hash, run_tasks
 from props.chaincommon import ast_of_tables
 from ref import chains, conj, decmodel
 
@@ -269,8 +269,7 @@ def run(ctx):
     items += [("pdgid", n) for n in names]
     items += [("unknown-pdgid", i) for i in (999999999, 424242, 12345678, -99) if i not in conj.EVT_ID2NAME]
     ctx.log(f"(a) {nfs} final states, {nmode} decay modes, {len(names)} PDG IDs")
-    for r in pmap(work_modes, [items[i:i + 100] for i in range(0, len(items), 100)], ctx.workers):
-        ctx.absorb(r)
+    run_tasks(ctx, work_modes, [items[i:i + 100] for i in range(0, len(items), 100)])
     ctx.count(states=len(items), transitions=len(items))
     ctx.part("a-modes", final_states=nfs, modes=nmode, pdgids=len(names), complete=True)
     # (b) chains
@@ -285,16 +284,14 @@ def run(ctx):
             for lo in range(0, n, step):
                 tasks.append((k, naming, lo, lo + step))
     ctx.log(f"(b) {total} chain shapes with <= {kmax + 1} decaying particles x namings, all mapping orders for <=3 entries")
-    for r in pmap(work_chains, tasks, ctx.workers):
-        ctx.absorb(r)
+    run_tasks(ctx, work_chains, tasks)
     ctx.count(states=total, transitions=total * 2)
     ctx.part("b-chains", shapes=total, max_decaying=kmax + 1, max_daughters=3, max_multiplicity=2, complete=True)
     ex = next(itertools.islice(shapes.single_chains(2), 40, None))
     ctx.sample({"part": "b", "decays": {k: dict(v) for k, v in ex.items()}, "to_dict": chains.chain_dict_of_modes("P0", {n: (0.5, c, {}) for n, c in ex.items()})})
     # (c) parser-produced single-line chains
     sl = list(single_line_table_sets())
-    for r in pmap(work_parser, [sl[i:i + 20] for i in range(0, len(sl), 20)], ctx.workers):
-        ctx.absorb(r)
+    run_tasks(ctx, work_parser, [sl[i:i + 20] for i in range(0, len(sl), 20)])
     ctx.count(states=len(sl), transitions=len(sl))
     ctx.part("c-parser-chains", table_sets=len(sl), complete=True)
     ctx.extra["excluded"] = ["chains with unreachable sub-decays", "model_params=None", "metadata keys colliding with constructor parameters"]
